@@ -5,7 +5,13 @@
 //   SVM  <cls|reg> <d|f> <v|c> <highestIndex> <batchSize> <s|f> <hex>
 //   XCSV <data|cls|reg> <d|f> <F|L> <nout> <sep> <maxBatch> <s|f> <rows>      rows: lab|v,v,..;lab|v,..  (decimal)
 //   XSVM <cls|reg> <v|c> <batchSize> <rows>                                    rows: lab|v,v,..
+//   OBS  <numElements> <maximumBatchSize>     detail::optimalBatchSizes directly (64-bit decimals)   -> S s1,s2,..
+//   OBI  <numElements> <batchSize>            Data<unsigned>(numElements, 0, batchSize): SharedContainer::initializeBatches -> S s1,s2,..
+// Batch sizes are full 64-bit unsigned decimals (SIZE_MAX means "one batch").
 // Output: OK <dataset> | EXC | STDEXC <what-class> | UNKEXC.  Crashes/timeouts are observed by the caller.
+// EVERY import is made twice: into a fresh object and into an object that already holds the result of an earlier
+// successful import of other data of the same type (through the same overload).  Both calls must behave identically
+// (contents, batch structure, shape, exception); otherwise the line is  REUSE-DIFF fresh=[..] reused=[..].
 #include <shark/Data/Csv.h>
 #include <shark/Data/SparseData.h>
 #include <cstdio>
@@ -114,32 +120,67 @@ template<class T> static void printScalar(std::ostream& o, Data<T> const& d) {
 		for (std::size_t i = 0; i < d.batch(b).size(); ++i) { if (!first) o << ";"; first = false; o << "|" << val((double)d.batch(b)(i)); }
 }
 
+// ---- fresh and reused target ------------------------------------------------------------------------
+template<class F> static std::string attempt(F f) {
+	std::ostringstream o;
+	try { f(o); }
+	catch (shark::Exception const&) { return "EXC"; }
+	catch (std::bad_alloc const&) { return "STDEXC bad_alloc"; }
+	catch (std::exception const& e) { return std::string("STDEXC ") + typeid(e).name(); }
+	catch (...) { return "UNKEXC"; }
+	return o.str();
+}
+struct PrefillFailed {};
+// D: dataset type; pre(D&) fills the target with other data, imp(D&) is the import under test, print(ostream&, D const&)
+template<class D, class Pre, class Imp, class Print> static std::string twice(Pre pre, Imp imp, Print print) {
+	std::string a = attempt([&](std::ostream& o) { D d; imp(d); print(o, d); });
+	D t; pre(t);
+	if (t.numberOfElements() < 3 || t.numberOfBatches() < 2) throw PrefillFailed();
+	std::string b = attempt([&](std::ostream& o) { imp(t); print(o, t); });
+	if (a == b) return a;
+	return "REUSE-DIFF fresh=[" + a + "] reused=[" + b + "]";
+}
+static const char* PRE_ROWS = "7,8,9\n1,2,3\n4,5,6\n";
+static const char* PRE_CLS = "2,7,8\n0,1,2\n1,4,5\n";
+template<class V> static void preData(Data<V>& d) { csvStringToData(d, std::string(PRE_ROWS), ',', '#', 2); }
+template<class V> static void preCls(LabeledData<V, unsigned int>& d) { csvStringToData(d, std::string(PRE_CLS), FIRST_COLUMN, ',', '#', 2); }
+template<class V> static void preReg(LabeledData<V, V>& d) { csvStringToData(d, std::string(PRE_ROWS), FIRST_COLUMN, 1, ',', '#', 2); }
+template<class T> static void preScl(Data<T>& d) { csvStringToData(d, std::string("5 6 7 8 9\n"), ',', '#', 2); }
+template<class I> static void preSvm(LabeledData<I, unsigned int>& d) { std::istringstream is("1 1:5 2:6\n-1 1:7 3:1\n1 2:2\n"); importSparseData(d, is, 0, 2); }
+template<class I, class T> static void preSvm(LabeledData<I, blas::vector<T> >& d) { std::istringstream is("1.5 1:5 2:6\n-1 1:7 3:1\n2 2:2\n"); importSparseData(d, is, 0, 2); }
+
 // ---- importers ----------------------------------------------------------------------------------
 template<class T> static void csvCase(std::ostream& o, std::string const& variant, LabelPosition lp, std::size_t nout,
 		char sep, char cm, std::size_t mb, bool file, std::string const& bytes) {
 	typedef blas::vector<T> V;
 	if (variant == "data") {
-		Data<V> d;
-		if (file) importCSV(d, toFile(bytes), sep, cm, mb); else csvStringToData(d, bytes, sep, cm, mb);
-		printData(o, d);
+		typedef Data<V> D;
+		o << twice<D>([](D& d) { preData(d); },
+			[&](D& d) { if (file) importCSV(d, toFile(bytes), sep, cm, mb); else csvStringToData(d, bytes, sep, cm, mb); },
+			[](std::ostream& s, D const& d) { printData(s, d); });
 	} else if (variant == "cls") {
-		LabeledData<V, unsigned int> d;
-		if (file) importCSV(d, toFile(bytes), lp, sep, cm, mb); else csvStringToData(d, bytes, lp, sep, cm, mb);
-		printLabeled<false>(o, d);
+		typedef LabeledData<V, unsigned int> D;
+		o << twice<D>([](D& d) { preCls(d); },
+			[&](D& d) { if (file) importCSV(d, toFile(bytes), lp, sep, cm, mb); else csvStringToData(d, bytes, lp, sep, cm, mb); },
+			[](std::ostream& s, D const& d) { printLabeled<false>(s, d); });
 	} else {
-		LabeledData<V, V> d;
-		if (file) importCSV(d, toFile(bytes), lp, nout, sep, cm, mb); else csvStringToData(d, bytes, lp, nout, sep, cm, mb);
-		printLabeled<false>(o, d);
+		typedef LabeledData<V, V> D;
+		o << twice<D>([](D& d) { preReg(d); },
+			[&](D& d) { if (file) importCSV(d, toFile(bytes), lp, nout, sep, cm, mb); else csvStringToData(d, bytes, lp, nout, sep, cm, mb); },
+			[](std::ostream& s, D const& d) { printLabeled<false>(s, d); });
 	}
 }
-template<class T> static void sclCase(std::ostream& o, char sep, char cm, std::size_t mb, std::string const& bytes) {
-	Data<T> d; csvStringToData(d, bytes, sep, cm, mb); printScalar(o, d);
+template<class T> static void sclCase(std::ostream& o, char sep, char cm, std::size_t mb, bool file, std::string const& bytes) {
+	typedef Data<T> D;
+	o << twice<D>([](D& d) { preScl(d); },
+		[&](D& d) { if (file) importCSV(d, toFile(bytes), sep, cm, mb); else csvStringToData(d, bytes, sep, cm, mb); },
+		[](std::ostream& s, D const& d) { printScalar(s, d); });
 }
 template<class I, class L> static void svmCase(std::ostream& o, unsigned int hi, std::size_t bs, bool file, std::string const& bytes) {
-	LabeledData<I, L> d;
-	if (file) importSparseData(d, toFile(bytes), hi, bs);
-	else { std::istringstream is(bytes); importSparseData(d, is, hi, bs); }
-	printLabeled<true>(o, d);
+	typedef LabeledData<I, L> D;
+	o << twice<D>([](D& d) { preSvm(d); },
+		[&](D& d) { if (file) importSparseData(d, toFile(bytes), hi, bs); else { std::istringstream is(bytes); importSparseData(d, is, hi, bs); } },
+		[](std::ostream& s, D const& d) { printLabeled<true>(s, d); });
 }
 
 // ---- exporters (round trip) -----------------------------------------------------------------------
@@ -173,18 +214,21 @@ template<class T> static void xcsvCase(std::ostream& o, std::string const& varia
 		Data<V> d = createDataFromRange(toVecs<V>(r.in), mb);
 		if (file) { exportCSV(d, tmpname, sep); text = slurp(tmpname); }
 		else { std::ostringstream os; detail::exportCSV(d.elements(), os, sep); text = os.str(); }
-		Data<V> back; csvStringToData(back, text, sep, '#', mb); printData(imp, back);
+		typedef Data<V> D;
+		imp << twice<D>([](D& b) { preData(b); }, [&](D& b) { csvStringToData(b, text, sep, '#', mb); }, [](std::ostream& s, D const& b) { printData(s, b); });
 	} else if (variant == "cls") {
 		std::vector<unsigned int> l; for (auto const& x : r.lab) l.push_back((unsigned int)x[0]);
 		LabeledData<V, unsigned int> d = createLabeledDataFromRange(toVecs<V>(r.in), l, mb);
 		if (file) { exportCSV(d, tmpname, lp, sep); text = slurp(tmpname); }
 		else { std::ostringstream os; detail::exportCSV_labeled(d.inputs().elements(), d.labels().elements(), os, lp, sep); text = os.str(); }
-		LabeledData<V, unsigned int> back; csvStringToData(back, text, lp, sep, '#', mb); printLabeled<false>(imp, back);
+		typedef LabeledData<V, unsigned int> D;
+		imp << twice<D>([](D& b) { preCls(b); }, [&](D& b) { csvStringToData(b, text, lp, sep, '#', mb); }, [](std::ostream& s, D const& b) { printLabeled<false>(s, b); });
 	} else {
 		LabeledData<V, V> d = createLabeledDataFromRange(toVecs<V>(r.in), toVecs<V>(r.lab), mb);
 		if (file) { exportCSV(d, tmpname, lp, sep); text = slurp(tmpname); }
 		else { std::ostringstream os; detail::exportCSV_labeled(d.inputs().elements(), d.labels().elements(), os, lp, sep); text = os.str(); }
-		LabeledData<V, V> back; csvStringToData(back, text, lp, nout, sep, '#', mb); printLabeled<false>(imp, back);
+		typedef LabeledData<V, V> D;
+		imp << twice<D>([](D& b) { preReg(b); }, [&](D& b) { csvStringToData(b, text, lp, nout, sep, '#', mb); }, [](std::ostream& s, D const& b) { printLabeled<false>(s, b); });
 	}
 	o << "X text=" << hex(text) << " " << imp.str();
 }
@@ -197,12 +241,14 @@ template<class I> static void xsvmCase(std::ostream& o, std::string const& varia
 		std::vector<unsigned int> l; for (auto const& x : r.lab) l.push_back((unsigned int)x[0]);
 		LabeledData<I, unsigned int> d = createLabeledDataFromRange(ins, l, bs);
 		exportSparseData(d, os);
-		LabeledData<I, unsigned int> back; std::istringstream is(os.str()); importSparseData(back, is, 0, bs); printLabeled<true>(imp, back);
+		typedef LabeledData<I, unsigned int> D;
+		imp << twice<D>([](D& b) { preSvm(b); }, [&](D& b) { std::istringstream is(os.str()); importSparseData(b, is, 0, bs); }, [](std::ostream& s, D const& b) { printLabeled<true>(s, b); });
 	} else {
 		std::vector<RealVector> l; for (auto const& x : r.lab) l.push_back(RealVector(1, x[0]));
 		LabeledData<I, RealVector> d = createLabeledDataFromRange(ins, l, bs);
 		exportSparseData(d, os);
-		LabeledData<I, RealVector> back; std::istringstream is(os.str()); importSparseData(back, is, 0, bs); printLabeled<true>(imp, back);
+		typedef LabeledData<I, RealVector> D;
+		imp << twice<D>([](D& b) { preSvm(b); }, [&](D& b) { std::istringstream is(os.str()); importSparseData(b, is, 0, bs); }, [](std::ostream& s, D const& b) { printLabeled<true>(s, b); });
 	}
 	o << "X text=" << hex(os.str()) << " " << imp.str();
 }
@@ -214,31 +260,49 @@ template<> void xsvmCase<RealVector>(std::ostream& o, std::string const& variant
 		std::vector<unsigned int> l; for (auto const& x : r.lab) l.push_back((unsigned int)x[0]);
 		LabeledData<RealVector, unsigned int> d = createLabeledDataFromRange(ins, l, bs);
 		exportSparseData(d, os);
-		LabeledData<RealVector, unsigned int> back; std::istringstream is(os.str()); importSparseData(back, is, 0, bs); printLabeled<true>(imp, back);
+		typedef LabeledData<RealVector, unsigned int> D;
+		imp << twice<D>([](D& b) { preSvm(b); }, [&](D& b) { std::istringstream is(os.str()); importSparseData(b, is, 0, bs); }, [](std::ostream& s, D const& b) { printLabeled<true>(s, b); });
 	} else {
 		std::vector<RealVector> l; for (auto const& x : r.lab) l.push_back(RealVector(1, x[0]));
 		LabeledData<RealVector, RealVector> d = createLabeledDataFromRange(ins, l, bs);
 		exportSparseData(d, os);
-		LabeledData<RealVector, RealVector> back; std::istringstream is(os.str()); importSparseData(back, is, 0, bs); printLabeled<true>(imp, back);
+		typedef LabeledData<RealVector, RealVector> D;
+		imp << twice<D>([](D& b) { preSvm(b); }, [&](D& b) { std::istringstream is(os.str()); importSparseData(b, is, 0, bs); }, [](std::ostream& s, D const& b) { printLabeled<true>(s, b); });
 	}
 	o << "X text=" << hex(os.str()) << " " << imp.str();
 }
 
+// full 64-bit unsigned decimal (std::size_t is 64 bit here); anything else is a bad case file
+static std::size_t u64(std::string const& s) {
+	static_assert(sizeof(std::size_t) == 8, "64-bit size_t expected");
+	if (s.empty() || s.size() > 20) throw std::invalid_argument("u64");
+	unsigned long long v = 0;
+	for (char c : s) {
+		if (c < '0' || c > '9') throw std::invalid_argument("u64");
+		unsigned long long d = (unsigned long long)(c - '0');
+		if (v > (~0ULL - d) / 10ULL) throw std::out_of_range("u64");
+		v = v * 10ULL + d;
+	}
+	return (std::size_t)v;
+}
 static void runCase(std::ostream& o, std::vector<std::string> const& t) {
 	std::string const& k = t.at(0);
 	if (k == "CSV") {
 		LabelPosition lp = t.at(3) == "F" ? FIRST_COLUMN : LAST_COLUMN;
 		std::size_t nout = std::stoul(t.at(4)); char sep = (char)std::stoi(t.at(5)), cm = (char)std::stoi(t.at(6));
-		std::size_t mb = std::stoul(t.at(7)); bool file = t.at(8) == "f"; std::string bytes = unhex(t.size() > 9 ? t[9] : "");
+		std::size_t mb = u64(t.at(7)); bool file = t.at(8) == "f"; std::string bytes = unhex(t.size() > 9 ? t[9] : "");
 		if (t.at(2) == "d") csvCase<double>(o, t[1], lp, nout, sep, cm, mb, file, bytes);
 		else csvCase<float>(o, t[1], lp, nout, sep, cm, mb, file, bytes);
 	} else if (k == "SCL") {
-		char sep = (char)std::stoi(t.at(2)), cm = (char)std::stoi(t.at(3)); std::size_t mb = std::stoul(t.at(4));
-		std::string bytes = unhex(t.size() > 5 ? t[5] : "");
-		if (t[1] == "i") sclCase<int>(o, sep, cm, mb, bytes); else if (t[1] == "u") sclCase<unsigned int>(o, sep, cm, mb, bytes);
-		else if (t[1] == "f") sclCase<float>(o, sep, cm, mb, bytes); else sclCase<double>(o, sep, cm, mb, bytes);
+		// SCL <type> <sep> <comment> <maxBatch> <hex>   or, with the source,   SCL <type> <sep> <comment> <maxBatch> <s|f> <hex>
+		char sep = (char)std::stoi(t.at(2)), cm = (char)std::stoi(t.at(3)); std::size_t mb = u64(t.at(4));
+		bool tagged = t.size() > 5 && (t[5] == "s" || t[5] == "f"); bool file = tagged && t[5] == "f";
+		std::size_t hp = tagged ? 6 : 5;
+		std::string bytes = unhex(t.size() > hp ? t[hp] : "");
+		if (t[1] == "i") sclCase<int>(o, sep, cm, mb, file, bytes); else if (t[1] == "u") sclCase<unsigned int>(o, sep, cm, mb, file, bytes);
+		else if (t[1] == "f") sclCase<float>(o, sep, cm, mb, file, bytes); else sclCase<double>(o, sep, cm, mb, file, bytes);
 	} else if (k == "SVM") {
-		unsigned int hi = (unsigned int)std::stoul(t.at(4)); std::size_t bs = std::stoul(t.at(5)); bool file = t.at(6) == "f";
+		unsigned int hi = (unsigned int)std::stoul(t.at(4)); std::size_t bs = u64(t.at(5)); bool file = t.at(6) == "f";
 		std::string bytes = unhex(t.size() > 7 ? t[7] : "");
 		bool cls = t[1] == "cls", dbl = t[2] == "d", dense = t[3] == "v";
 		if (cls) {
@@ -254,12 +318,18 @@ static void runCase(std::ostream& o, std::vector<std::string> const& t) {
 		}
 	} else if (k == "XCSV") {
 		LabelPosition lp = t.at(3) == "F" ? FIRST_COLUMN : LAST_COLUMN;
-		std::size_t nout = std::stoul(t.at(4)); char sep = (char)std::stoi(t.at(5)); std::size_t mb = std::stoul(t.at(6)); bool file = t.at(7) == "f";
+		std::size_t nout = std::stoul(t.at(4)); char sep = (char)std::stoi(t.at(5)); std::size_t mb = u64(t.at(6)); bool file = t.at(7) == "f";
 		if (t.at(2) == "d") xcsvCase<double>(o, t[1], lp, nout, sep, mb, file, t.at(8));
 		else xcsvCase<float>(o, t[1], lp, nout, sep, mb, file, t.at(8));
 	} else if (k == "XSVM") {
-		std::size_t bs = std::stoul(t.at(3));
+		std::size_t bs = u64(t.at(3));
 		if (t.at(2) == "v") xsvmCase<RealVector>(o, t[1], bs, t.at(4)); else xsvmCase<CompressedRealVector>(o, t[1], bs, t.at(4));
+	} else if (k == "OBS") {
+		std::vector<std::size_t> s = detail::optimalBatchSizes(u64(t.at(1)), u64(t.at(2)));
+		o << "S "; for (std::size_t i = 0; i < s.size(); ++i) { if (i) o << ","; o << s[i]; }
+	} else if (k == "OBI") {
+		Data<unsigned int> d(u64(t.at(1)), 0u, u64(t.at(2)));
+		o << "S "; for (std::size_t i = 0; i < d.numberOfBatches(); ++i) { if (i) o << ","; o << batchSize(d.batch(i)); }
 	} else o << "BADCASE";
 }
 
@@ -284,6 +354,7 @@ int main(int argc, char** argv) {
 		std::ostringstream o;
 		alarm(secs);   // a hang is an observation: SIGALRM kills the process, the caller sees the signal
 		try { runCase(o, t); }
+		catch (PrefillFailed const&) { o.str(""); o << "PREFILL-FAILED"; }
 		catch (shark::Exception const&) { o.str(""); o << "EXC"; }
 		catch (std::bad_alloc const&) { o.str(""); o << "STDEXC bad_alloc"; }
 		catch (std::exception const& e) { o.str(""); o << "STDEXC " << typeid(e).name(); }
